@@ -362,19 +362,19 @@ def workloads(thorough):
         emb = [("emb-steady", [65536, 0, 60000, 11, 150, 0], True), ("emb-cycles", [65536, 0, 60000, 12, 400, 1], False),
                ("emb-oom", [65536, 1500000, 50000, 13, 300, 2], False), ("emb-steady-big", [262144, 0, 60000, 14, 1500, 0], True)]
     else:
-        for (nm, a, steady) in [("churn-small", ["churn", "1500000", "1"], True), ("mixed-sizes", ["mixed", "400000", "2"], True),
-                                ("bursty", ["bursty", "300", "3"], False), ("records-tables", ["records", "400000", "4"], True),
-                                ("continuations", ["conts", "30000", "5"], True), ("ports-strings", ["ports", "60000", "6"], True),
-                                ("growing", ["growing", "600000", "7"], False), ("big-objects", ["big", "3000", "9"], False),
-                                ("scheme-all-phases", ["all", "10000", "10"], False)]:
-            ws.append((nm, "scm", [], a, steady, ("windows", 10, 20000, 2600000)))
-        ws.append(("small-initial-heap", "scm", ["-h", "256k"], ["mixed", "50000", "21"], False, ("windows", 4, 20000, 0)))
-        ws.append(("bounded-oom", "scm", ["-h", "1m/6m"], ["oom", "400000", "22"], False, ("windows", 4, 20000, 2600000)))
+        for (nm, a, steady) in [("churn-small", ["churn", "600000", "1"], True), ("mixed-sizes", ["mixed", "150000", "2"], True),
+                                ("bursty", ["bursty", "80", "3"], False), ("records-tables", ["records", "150000", "4"], True),
+                                ("continuations", ["conts", "10000", "5"], True), ("ports-strings", ["ports", "20000", "6"], True),
+                                ("growing", ["growing", "150000", "7"], False), ("big-objects", ["big", "300", "9"], False),
+                                ("scheme-all-phases", ["all", "500", "10"], False)]:
+            ws.append((nm, "scm", [], a, steady, ("windows", 8, 15000, 2600000)))
+        ws.append(("small-initial-heap", "scm", ["-h", "256k"], ["mixed", "30000", "21"], False, ("windows", 4, 15000, 0)))
+        ws.append(("bounded-oom", "scm", ["-h", "1m/6m"], ["oom", "400000", "22"], False, ("windows", 4, 15000, 2600000)))
         emb = []
-        for sd in range(12):
-            emb.append(("emb-steady-%d" % sd, [32768 << (sd % 4), 0, 300000, 100 + sd, 100 + 150 * sd, 0], True))
-            emb.append(("emb-cycles-%d" % sd, [32768 << (sd % 3), 0, 300000, 200 + sd, 200 + 100 * sd, 1], False))
-            emb.append(("emb-oom-%d" % sd, [65536, 800000 + 300000 * sd, 200000, 300 + sd, 300, 2], False))
+        for sd in range(10):
+            emb.append(("emb-steady-%d" % sd, [65536 << (sd % 3), 0, 150000, 100 + sd, 100 + 150 * sd, 0], True))
+            emb.append(("emb-cycles-%d" % sd, [65536 << (sd % 3), 0, 150000, 200 + sd, 200 + 100 * sd, 1], False))
+            emb.append(("emb-oom-%d" % sd, [65536, 800000 + 300000 * sd, 100000, 300 + sd, 300, 2], False))
     for (nm, a, steady) in emb:
         ws.append((nm, "emb", [str(x) for x in a], [], steady, ("all",)))
     ws.sort(key=lambda w: w[1] != "emb")          # the small complete replays first
@@ -647,6 +647,8 @@ def run(ctx):
         for i in range(S["grows"] + S["ooms"]):
             ctx.count(0, key=(name, "grow/oom", i))
         ctx.cov["traces_validated_against_impl"] += 1
+        if os.environ.get("VERIF_C10_PROFILE"):
+            sys.stderr.write("C10 profile: %s run %.1fs model %.1fs total-so-far %.0fs allocs %d\n" % (name, w["secs"], S["model_secs"], time.time() - ctx.t0, S["allocs"]))
         ctx.sample(dict(workload=name, allocations=S["allocs"], collections=S["gcs"], slow_path=S["slow"], growths=S["grows"], oom=S["ooms"],
                         size_classes=S["sizes"], objects_compared=S["objs_checked"], peak_live=S["peak_live"], final_heap=S["final_total"],
                         bound=S.get("bound"), diverged=S["diverged"], windows=S["windows"], model_truncated=S["model_truncated"], run_s=round(w["secs"], 1), model_s=S["model_secs"]), maxn=20)
